@@ -158,6 +158,23 @@ def compile_many(jobs):
         list(ex.map(run, jobs))
 
 
+def prune(parent, prefix, keep):
+    """Remove all but the `keep` most recently used entries named prefix*."""
+    try:
+        ents = [os.path.join(parent, e) for e in os.listdir(parent) if e.startswith(prefix)]
+    except OSError:
+        return
+    ents.sort(key=lambda p: os.path.getmtime(p), reverse=True)
+    for p in ents[keep:]:
+        if os.path.isdir(p):
+            shutil.rmtree(p, ignore_errors=True)
+        else:
+            try:
+                os.unlink(p)
+            except OSError:
+                pass
+
+
 def build_lib(variant):
     """Returns (dir containing libxcm.a/libxcmctl.a/relay objs, tree hash)."""
     root = src_root()
@@ -167,10 +184,14 @@ def build_lib(variant):
         th = tree_hash(root)
         key = hashlib.sha256((th + repr(cflags) + repr(BASE_CFLAGS) + cc)
                              .encode()).hexdigest()[:24]
-        d = os.path.join(BUILD, variant, "lib")
+        # one directory per source-tree content, so that runs against /repo and
+        # against scratch trees (XCM_SRC) can proceed concurrently
+        d = os.path.join(BUILD, variant, "lib-" + key[:16])
         stamp = os.path.join(d, "stamp")
         if os.path.exists(stamp) and open(stamp).read() == key:
+            os.utime(d, None)
             return d, th
+        prune(os.path.join(BUILD, variant), "lib-", 8)
         shutil.rmtree(d, ignore_errors=True)
         os.makedirs(d)
         jobs, objs = [], {"xcm": [], "xcmctl": [], "relay": []}
@@ -239,10 +260,9 @@ def build_objs(variant, sources, th, extra_flags=()):
         o = os.path.join(d, "%s-%s.o" % (base, key))
         objs.append(o)
         if os.path.exists(o):
+            os.utime(o, None)
             continue
-        for old in os.listdir(d):
-            if old.startswith(base + "-") and old.endswith(".o"):
-                os.unlink(os.path.join(d, old))
+        prune(d, base + "-", 10)
         if is_c:
             cmd = [cc] + BASE_CFLAGS + cflags
         else:
@@ -265,13 +285,15 @@ def build_exe(name, variant, sources, libs=("xcm",), ldlibs=(), relay=False,
         objs = build_objs(variant, sources, th, extra_flags)
         bind = os.path.join(BUILD, variant, "bin")
         os.makedirs(bind, exist_ok=True)
-        exe = os.path.join(bind, name)
         key = hashlib.sha256((repr(objs) + th + repr(ldlibs) + repr(libs))
                              .encode()).hexdigest()[:24]
+        exe = os.path.join(bind, "%s.%s" % (name, key[:12]))
         stamp = exe + ".stamp"
         if os.path.exists(exe) and os.path.exists(stamp) and \
                 open(stamp).read() == key:
+            os.utime(exe, None)
             return exe
+        prune(bind, name + ".", 12)
         extra = []
         if relay:
             extra += open(os.path.join(libdir, "relay.objs")).read().split()
@@ -298,11 +320,13 @@ def build_relay(variant="plain"):
     with Lock("exe-%s-xcmrelay" % variant):
         bind = os.path.join(BUILD, variant, "bin")
         os.makedirs(bind, exist_ok=True)
-        exe = os.path.join(bind, "xcmrelay")
+        exe = os.path.join(bind, "xcmrelay." + th[:12])
         stamp = exe + ".stamp"
         if os.path.exists(exe) and os.path.exists(stamp) and \
                 open(stamp).read() == th:
+            os.utime(exe, None)
             return exe
+        prune(bind, "xcmrelay.", 12)
         objs = open(os.path.join(libdir, "relay.objs")).read().split()
         run([cc] + ldflags + ["-o", exe] + objs +
             ["-Wl,--whole-archive", os.path.join(libdir, "libxcm.a"),
